@@ -17,7 +17,7 @@ use crate::sched::{self, PointRec};
 pub fn meta() -> Meta {
     Meta {
         level: "model_checking",
-        rule: "stateless exploration of ALL schedules with at most 2 preemptions (thorough: 3 for the two-thread scripts) of 14 scripts with 1..3 application threads on a fresh real manager per execution (64 nodes, apply cache 16, 3 variables): S1 two threads compute the same conjunction; S2 recomputation vs. gc with the dead result still in the unique table and apply cache; S3 a different operator on shared operands vs. gc; S4 drop vs. gc vs. clone+or; S5 one thread running the multi-threaded ite/and with split depth 2 (fork/join through the hook spawns controlled threads); S6 gc vs. gc vs. xor; S8 add_vars (exclusive lock) vs. and; S9 two allocating threads on a 12-node manager; S10 ZBDD not (tautology chain) vs. gc; S11 quantification vs. gc vs. quantification; S12 compute-drop-recompute vs. gc;  S13 ite / S14 or+and on operands (x0 ? x1 : x2), (x0 ? !x2 : x2) with split depth 2 (forked joins) on a store with room for the operands plus 0..3 nodes (OutOfMemory inside one branch of a join while the sibling succeeds; failing operations are allowed, the reference counts and the node count after teardown must still be exact); G1 the background collector as a controlled thread on a 160-node store (marks 90/95) that holds 72 live and 18 dead nodes: the application thread builds A, builds and drops B, builds C and D, crossing the high water mark up to twice (all schedules with <= 2 preemptions, about 50 000 per kind, split into 16 disjoint parts of the schedule tree; thorough: G2 = the same work split over two application threads); kinds bdd, bcdd, zbdd; MTBDD<I64>: M1 add with a fresh constant, constant dropped, another fresh constant (terminal slot recycling) vs. gc; M2 two threads creating the same new terminal vs. gc. Scheduling points: every level / store-state / manager-RwLock / terminal / cache-bucket lock acquisition (blocking ones with a readiness predicate, so deadlock = no enabled thread is detected), cache try-locks, gc try-lock and phases, handle clone/drop, fork/join. Oracle per execution (G1/G2 additionally: the store can be refilled to its full capacity afterwards): every result has the model's table and equals the handle obtained by recomputing sequentially in the same manager afterwards; no panic / deadlock; full audit with exact reference counts; after dropping everything + gc the initial node count. states = distinct (schedule outcome signatures), transitions = scheduling decisions taken, executions = schedules run.",
+        rule: "stateless exploration of ALL schedules with at most 2 preemptions (thorough: 3 for the two-thread scripts) of 14 scripts with 1..3 application threads on a fresh real manager per execution (64 nodes, apply cache 16, 3 variables): S1 two threads compute the same conjunction; S2 recomputation vs. gc with the dead result still in the unique table and apply cache; S3 a different operator on shared operands vs. gc; S4 drop vs. gc vs. clone+or; S5 one thread running the multi-threaded ite/and with split depth 2 (fork/join through the hook spawns controlled threads); S6 gc vs. gc vs. xor; S8 add_vars (exclusive lock) vs. and; S9 two allocating threads on a 12-node manager; S10 ZBDD not (tautology chain) vs. gc; S11 quantification vs. gc vs. quantification; S12 compute-drop-recompute vs. gc; S16 model counting of live functions through a count cache filled before the collection, both threads inside a session of another manager (freed slots are recycled while the collection runs);  S13 ite / S14 or+and on operands (x0 ? x1 : x2), (x0 ? !x2 : x2) with split depth 2 (forked joins) on a store with room for the operands plus 0..3 nodes (OutOfMemory inside one branch of a join while the sibling succeeds; failing operations are allowed, the reference counts and the node count after teardown must still be exact); G1 the background collector as a controlled thread on a 160-node store (marks 90/95) that holds 72 live and 18 dead nodes: the application thread builds A, builds and drops B, builds C and D, crossing the high water mark up to twice (all schedules with <= 2 preemptions, about 50 000 per kind, split into 16 disjoint parts of the schedule tree; thorough: G2 = the same work split over two application threads); kinds bdd, bcdd, zbdd; MTBDD<I64>: M1 add with a fresh constant, constant dropped, another fresh constant (terminal slot recycling) vs. gc; M2 two threads creating the same new terminal vs. gc. Scheduling points: every level / store-state / manager-RwLock / terminal / cache-bucket lock acquisition (blocking ones with a readiness predicate, so deadlock = no enabled thread is detected), cache try-locks, gc try-lock and phases, handle clone/drop, fork/join. Oracle per execution (G1/G2 additionally: the store can be refilled to its full capacity afterwards): every result has the model's table and equals the handle obtained by recomputing sequentially in the same manager afterwards; no panic / deadlock; full audit with exact reference counts; after dropping everything + gc the initial node count. states = distinct (schedule outcome signatures), transitions = scheduling decisions taken, executions = schedules run.",
         assumptions: vec![
             "at the instrumented points only sequentially consistent interleavings are explored (Relaxed/Acquire/Release reorderings are not modelled, and nothing can be interleaved between two atomic operations that have no scheduling point between them); the one lock that is built from raw atomics, the apply-cache bucket lock, is therefore also model-checked with loom (`loom:spinlock:*` shards: all interleavings and weak-memory behaviours of lock/try_lock/unlock for 2 threads, preemption bound 3 for 3 threads; the code is derived from the source text of oxidd-cache/src/util.rs at build time)".into(),
             "the background collector thread is a controlled thread in script G1 only (adopted through the daemon hook; its wait for the condition variable is modelled by a sticky notification flag, see DESIGN 8.8); in the other scripts the node stores (< 100 nodes) disable it and its effect, gc() under a shared manager lock at any point, is scheduled explicitly (S2-S4, S6, S10, S11)".into(),
@@ -29,7 +29,7 @@ pub fn meta() -> Meta {
     }
 }
 
-const SCRIPTS: [&str; 11] = ["s1", "s2", "s3", "s4", "s5", "s6", "s8", "s9", "s10", "s11", "s12"];
+const SCRIPTS: [&str; 12] = ["s1", "s2", "s3", "s4", "s5", "s6", "s8", "s9", "s10", "s11", "s12", "s16"];
 
 pub fn shards(tier: &str) -> Vec<String> {
     let mut v = vec![];
@@ -88,6 +88,8 @@ pub fn run(ctx: &mut Ctx) {
     }
     run_script_shard(ctx)
 }
+
+type CountCache = oxidd::util::SatCountCache<oxidd::util::num::Saturating<u64>, std::hash::BuildHasherDefault<oxidd::util::FxHasher>>;
 
 /// `<kind>:<script>:b<bound>`; also used by C12 for S15 (the count cache of one thread vs. a collection on another)
 pub fn run_script_shard(ctx: &mut Ctx) {
@@ -358,6 +360,7 @@ where
     let hclone_src = h.clone();
     let cube = K::build(&mref, model::cube_tab(0b010, 0, n)).unwrap();
 
+    let other_mgr: Option<MRefOf<K>> = if script == "s16" { Some(K::new_manager(16, 16, 1)) } else { None };
     let mut bodies: Vec<Box<dyn FnOnce() + Send + '_>> = vec![];
     let r = &results;
     let gcr = &gcs;
@@ -474,7 +477,7 @@ where
             bodies.push(Box::new(move || *gcr[0].lock().unwrap() = Some(mr.with_manager_shared(|m| m.gc()))));
             let cnt = &counts;
             bodies.push(Box::new(move || {
-                let mut cache: oxidd::util::SatCountCache<oxidd::util::num::Saturating<u64>, std::hash::BuildHasherDefault<oxidd::util::FxHasher>> = oxidd::util::SatCountCache::default();
+                let mut cache: CountCache = Default::default();
                 cache.cache_all = true;
                 let mut out = vec![];
                 for t in [0x6au64, 0x2c, 0x19] {
@@ -483,6 +486,30 @@ where
                     }
                 }
                 *cnt.lock().unwrap() = out;
+            }));
+        }
+        "s16" => {
+            // S16: a count cache filled BEFORE the collection (entries of functions that are dead by now); both
+            // threads work from inside a session of another manager, so every slot the collection frees goes
+            // straight to the shared free list and the other thread's next allocation can take it while the
+            // collection is still running
+            let mut cache: CountCache = Default::default();
+            cache.cache_all = true;
+            for t in [0x6au64, 0x2c, 0x19, 0x47] {
+                let d = K::build(mr, t).unwrap();
+                let c = d.sat_count(3, &mut cache).0;
+                assert_eq!(c, t.count_ones() as u64, "count of {t:#x} in the sequential set-up");
+            }
+            let other = other_mgr.as_ref().unwrap();
+            bodies.push(Box::new(move || *gcr[0].lock().unwrap() = Some(other.with_manager_shared(|_| mr.with_manager_shared(|m| m.gc())))));
+            let cnt = &counts;
+            bodies.push(Box::new(move || {
+                other.with_manager_shared(|_| {
+                    // everything counted here stays alive until the thread is done: no entry made during the
+                    // collection can belong to a node that the collection frees
+                    let live: Vec<(Tab, K::F)> = [0x71u64, 0x8e].into_iter().filter_map(|t| K::build(mr, t).ok().map(|d| (t, d))).collect();
+                    *cnt.lock().unwrap() = live.iter().map(|(t, d)| (*t, d.sat_count(3, &mut cache).0)).collect();
+                })
             }));
         }
         "s11" => {
